@@ -110,8 +110,8 @@ def run(ctx, rep):
     templates = [(owner, node, tmpl, args) for owner, node, tmpl, args in token_templates(ctx, frag) if shape.match(tmpl)]
     if len(templates) < 2:
         raise AnalysisError("ring/branch token templates ('[{}Name{}]') not found in the encoder")
-    tables = {"Ring": set(ctx.fold.global_value("selfies.grammar_rules", "_PROCESS_RING_CACHE")),
-              "Branch": set(ctx.fold.global_value("selfies.grammar_rules", "_PROCESS_BRANCH_CACHE"))}
+    tables = {"Ring": set(__import__("rules.symlang", fromlist=["x"]).symbol_table(ctx, "ring")),
+              "Branch": set(__import__("rules.symlang", fromlist=["x"]).symbol_table(ctx, "branch"))}
     allkeys = tables["Ring"] | tables["Branch"]
     n_tmpl = 0
     for owner, node, tmpl, args in templates:
@@ -127,7 +127,7 @@ def run(ctx, rep):
             raise AnalysisError("%s token is not built from (prefix, len(index symbols))" % kind)
         if isinstance(args[0], ast.Call) and not (kind == "Ring" and len(args[0].args) == 2 and not args[0].keywords):
             pre, g = prefix_language(ctx, owner, args[0])
-        elif kind == "Ring":
+        elif kind.lower().startswith("ring") or not isinstance(args[0], ast.Call):
             # the prefix of a ring token: a function of the two directed bonds, or a local of the formatting function
             from rules.shared import ring_prefix_paths
             rp = ring_prefix_paths(ctx, owner, node, args[0])
